@@ -379,6 +379,9 @@ pub fn structured() -> Vec<(String, Vec<Vec<Option<u8>>>, Vec<Vec<u8>>)> {
     out.push(("routes8".into(), vec![e(&[1, 7]), e(&[2]), e(&[3]), e(&[7]), vec![], vec![], e(&[5]), e(&[6])], vec![vec![0]]));
     // wide frontier joining in one node
     out.push(("wide8".into(), (0..8u8).map(|i| if i == 0 { e(&[1, 2, 3, 4, 5, 6]) } else if i < 7 { e(&[7]) } else { vec![] }).collect(), vec![vec![0]]));
+    // a forest with three (five) roots: more initial states than workers
+    out.push(("threeroots6".into(), vec![e(&[1]), vec![], e(&[3]), vec![], e(&[5]), vec![]], vec![vec![0, 2, 4], vec![4, 0, 2]]));
+    out.push(("fiveroots8".into(), vec![e(&[5]), e(&[6]), e(&[7]), vec![], vec![], vec![], vec![], vec![]], vec![vec![0, 1, 2, 3, 4]]));
     // self loops along a chain
     out.push(("loops5".into(), vec![e(&[0, 1]), e(&[1, 2]), e(&[3, 2]), e(&[3, 4]), e(&[4])], vec![vec![0]]));
     // pseudo-random graphs from a fixed generator
